@@ -45,6 +45,9 @@ def params(draw, tier):
     p["allow_negatives"] = draw(st.sampled_from([False, False, True]))
     p["fit"] = draw(st.sampled_from(["dlite", "taubinSVD"]))
     p["x0"] = draw(st.sampled_from(["none", "ones", "random", "with_zero", "warm_start"])) if p["method"] == "lsq" else "none"
+    # an opening-angle limit removes interfaces from the system: 'number of interfaces' in the added row is then the
+    # number of remaining unknowns (exclusion itself is C16's subject; here only the solved system is judged)
+    p["limit"] = draw(st.sampled_from([None, None, None, 0.7, 0.8, 0.9])) if p["x0"] == "none" else None
     if p["method"] == "lsq_linear":
         # the property covers this back-end on consistent systems only
         p["noise"] = 0.0
@@ -127,7 +130,8 @@ def solve_once(p, ctx):
                 v.y += float(d[1])
         frames[1] = make_frame(R1, 1, time=1.0)
     fsys = call(fs.ForSys, frames, cm=False)
-    call(fsys.build_force_matrix, when=0, circle_fit_method=p["fit"], angle_limit=np.inf)
+    call(fsys.build_force_matrix, when=0, circle_fit_method=p["fit"],
+         angle_limit=np.inf if not p.get("limit") else float(p["limit"]) * np.pi)
     fm = fsys.force_matrices[0]
     if fm.matrix.shape[0] == 0 or fm.matrix.shape[1] < 2:
         return None
@@ -186,7 +190,15 @@ def judge(p, ctx, fsys, fm, A, b_top, frame, consistent):
         return ctx.violation("system-rhs", p, observed=float(rec["b"][k]), expected=float(b_exp[k]), detail={"row": k})
     M, b = rec["mprime"], rec["b"]
     forces = fsys.forces[0]
-    vals = np.array([forces[k] for k in range(E)], dtype=float)
+    if p.get("limit"):
+        kept = [k for k in sorted(forces) if forces[k] != -1]
+        if len(kept) != E:
+            return ctx.violation("reported-vs-unknowns", p, observed=len(kept), expected=E)
+        if len(kept) < len(forces):
+            ctx.count("angle-limit-removed-interfaces")
+        vals = np.array([forces[k] for k in kept], dtype=float)
+    else:
+        vals = np.array([forces[k] for k in range(E)], dtype=float)
     # (a) forces are the raw solution without the multiplier
     if rec["xres"].shape != (E + 1,) or np.max(np.abs(vals - rec["xres"][:E])) > 0:
         return ctx.violation("forces-vs-raw", p, observed=vals[:6].tolist(), expected=rec["xres"][:6].tolist())
